@@ -3,20 +3,8 @@
    when a published file and the models have drifted apart. *)
 From Coq Require Import List Bool String ZArith Arith.
 Import ListNotations.
-From HV Require Export lib.Harness model.Schema spec.SchemaS gen.Schemas.
+From HV Require Export lib.Harness model.Schema model.SchemaSeq spec.SchemaS gen.Schemas model.SchemaFiles.
 Open Scope string_scope.
-
-Inductive family := FHugr | FTesting.
-Definition published (f : family) (strict : bool) : json :=
-  match f, strict with
-  | FHugr, false => published_hugr | FHugr, true => published_hugr_strict
-  | FTesting, false => published_testing | FTesting, true => published_testing_strict
-  end.
-Definition generated (f : family) (strict : bool) : json :=
-  match f, strict with
-  | FHugr, false => generated_hugr | FHugr, true => generated_hugr_strict
-  | FTesting, false => generated_testing | FTesting, true => generated_testing_strict
-  end.
 
 Inductive case :=
 (* one document read as definition `entry` of the `fam` files.
@@ -25,9 +13,15 @@ Inductive case :=
    one_way : the mutation belongs to a named class on which pydantic is more lenient than its own schema
    with_generated : also evaluate the freshly generated constants (theorems C17_*_same_documents say the verdicts
    are equal for every document; evaluating it on the unmutated documents keeps a concrete check alive when a
-   published file and the models drift apart and those theorems no longer build) *)
+   published file and the models drift apart and those theorems no longer build)
+   seqs : verdicts of the models after a HISTORY of schema-defining rebuilds in one process (oldest first, performed
+   through Root._pydantic_rebuild only; the last step is a rebuild of `fam`'s root and names the configuration):
+   (history, ok, api) with ok = the decoder the class configurations left by the history denote,
+   api = Some v for the validator object the last rebuild left on the root, observed only on documents whose
+   single mutation is an extra member of the root object itself under the strict configuration *)
 | CDoc (fam : family) (entry : string) (doc : json) (one_way with_generated : bool)
-       (js_strict js_lax pyd_strict pyd_lax pyd_default : bool).
+       (js_strict js_lax pyd_strict pyd_lax pyd_default : bool)
+       (seqs : list (list step * bool * option bool)).
 
 Definition kv (k : string) (v : json) : string * json := (k, v).
 Definition fuel := default_fuel.
@@ -35,7 +29,7 @@ Definition fuel := default_fuel.
 (* model validator on the published constants == reference validator on the published files *)
 Definition corr (c : case) : bool :=
   match c with
-  | CDoc f e d _ headroom js_s js_l _ _ _ =>
+  | CDoc f e d _ headroom js_s js_l _ _ _ _ =>
       Bool.eqb (accepts fuel (published f true) e d) js_s &&
       Bool.eqb (accepts fuel (published f false) e d) js_l &&
       (* fuel headroom (unmutated documents): a third of the budget already gives the same verdict, so the
@@ -45,15 +39,36 @@ Definition corr (c : case) : bool :=
        else true)
   end.
 
+(* after a history ending in (f, c) the decoder accepts what the file EXPECTED in the state reached accepts
+   (SchemaSeq.expected: the published file of (f, c); in a testing file the SerialHugr definition is the one of the
+   HUGR file of the configuration SerialHugr last received) - whatever was rebuilt before *)
+Definition seq_ok (f : family) (e : string) (d : json) (one_way s_s s_l : bool)
+                  (so : list step * bool * option bool) : bool :=
+  let '(h, ok, api) := so in
+  match rev h with
+  | [] => false
+  | (f', c) :: _ =>
+      family_eqb f f' &&
+      let st := run_steps init h in
+      let s := match subst_of published st f c with
+               | [] => if c then s_s else s_l           (* expected published st f c = published f c *)
+               | _ :: _ => accepts fuel (expected published st f c) e d
+               end in
+      verdicts_agree one_way s ok &&
+      match api with None => true | Some a => implb a s end
+  end.
+
 (* the property on the implementation's behaviour: published schema accepts <-> the Python models accept,
-   and the schema the models define now gives the same verdict as the published one *)
+   and the schema the models define now gives the same verdict as the published one,
+   also after every observed history of rebuilds *)
 Definition mon (c : case) : bool :=
   match c with
-  | CDoc f e d one_way with_gen _ _ p_s p_l p_d =>
+  | CDoc f e d one_way with_gen _ _ p_s p_l p_d seqs =>
       let s_s := accepts fuel (published f true) e d in
       let s_l := accepts fuel (published f false) e d in
       verdicts_agree one_way s_s p_s && verdicts_agree one_way s_l p_l && verdicts_agree one_way s_l p_d &&
       (if with_gen then Bool.eqb s_s (accepts fuel (generated f true) e d) &&
                         Bool.eqb s_l (accepts fuel (generated f false) e d)
-       else true)
+       else true) &&
+      forallb (seq_ok f e d one_way s_s s_l) seqs
   end.
